@@ -12,7 +12,7 @@ trap 'git -C /repo worktree remove --force "$wt"; rm -rf "$wt" "$ev"' EXIT
 ev=$(mktemp -d /tmp/tryseed-ev-XXXXXX)
 git -C "$wt" apply "$patch" || { echo "patch does not apply"; exit 2; }
 log=/tmp/try_seeded_${pid}_$$.log
-cd /verif && PYTHONPATH="$wt/src" VERIF_EVIDENCE_DIR="$ev" ./check "$pid" --tier "$tier" > "$log" 2>&1
+cd "$(dirname "$(readlink -f "$0")")/.." && PYTHONPATH="$wt/src" VERIF_EVIDENCE_DIR="$ev" ./check "$pid" --tier "$tier" > "$log" 2>&1
 rc=$?
 grep -E "^VIOLATION|KNOWN-FINDING|rejections by|MACHINERY" "$log" | cut -c1-220 | head -8
 tail -1 "$log"
